@@ -143,13 +143,14 @@ SOLVERS = {
     'CG-1e-3': lambda: lx.CG(rtol=1e-3, atol=1e-3, max_steps=500),
     'CG-1e-5': lambda: lx.CG(rtol=1e-5, atol=1e-5, max_steps=500),
     'CG-default': None,
+    'CG-unbounded': lambda: lx.CG(rtol=1e-6, atol=1e-6),          # max_steps=None, lineax's own default
     'BiCGStab': lambda: lx.BiCGStab(rtol=1e-5, atol=1e-5, max_steps=500),
     'GMRES': lambda: lx.GMRES(rtol=1e-5, atol=1e-5, max_steps=500),
     'NormalCG': lambda: lx.NormalCG(rtol=1e-5, atol=1e-5, max_steps=1000),
     'Cholesky': lambda: lx.Cholesky(),
     'LU': lambda: lx.LU(),
 }
-TOLS = {'CG-1e-3': 1e-3, 'CG-1e-5': 1e-5, 'CG-default': 1e-6, 'BiCGStab': 1e-5, 'GMRES': 1e-5, 'NormalCG': 1e-5,
+TOLS = {'CG-unbounded': 1e-6, 'CG-1e-3': 1e-3, 'CG-1e-5': 1e-5, 'CG-default': 1e-6, 'BiCGStab': 1e-5, 'GMRES': 1e-5, 'NormalCG': 1e-5,
         'Cholesky': 1e-6, 'LU': 1e-6}
 
 
